@@ -29,6 +29,8 @@ thread_local! {
     static PEAK: Cell<isize> = const { Cell::new(0) };
     static TOTAL: Cell<usize> = const { Cell::new(0) };
     static BIGGEST: Cell<usize> = const { Cell::new(0) };
+    /// biggest request with alignment 1 (byte buffers) since `begin()`
+    static BIGGEST_BYTES: Cell<usize> = const { Cell::new(0) };
     /// poison byte for non-zeroed allocations; 0 = off
     static POISON: Cell<u8> = const { Cell::new(0) };
     /// a single request above this size fails (returns null) => the runtime aborts or panics
@@ -56,16 +58,188 @@ fn on_alloc(size: usize) {
 }
 
 #[inline]
+fn on_layout(layout: Layout) {
+    if layout.align() == 1 {
+        let _ = BIGGEST_BYTES.try_with(|c| {
+            if layout.size() > c.get() {
+                c.set(layout.size())
+            }
+        });
+    }
+}
+
+#[inline]
 fn on_free(size: usize) {
     let _ = CUR.try_with(|c| c.set(c.get().wrapping_sub(size as isize)));
 }
 
+// ---------------------------------------------------------------------------------------------
+// Guard-page mode (electric-fence style), selected for the whole life of a process by the
+// environment variable VERIF_GUARD=after|before (read once, with getenv, at the first
+// allocation). Every allocation of GUARD_MIN..=GUARD_MAX bytes gets its own mapping with an
+// inaccessible page directly behind its last byte ("after": the end of the block is aligned
+// down only as far as the layout's alignment demands) or directly in front of its first byte
+// ("before"). Any access outside the block on that side is a SIGSEGV in the accessing
+// instruction — also for raw-pointer reads and inline assembly, which no safe-code check sees.
+pub const GUARD_MIN: usize = 1024;
+pub const GUARD_MAX: usize = 1 << 30;
+const PAGE: usize = 4096;
+static GUARD_MODE: std::sync::atomic::AtomicU8 = std::sync::atomic::AtomicU8::new(0);
+static GUARDED_ALLOCS: std::sync::atomic::AtomicU64 = std::sync::atomic::AtomicU64::new(0);
+
+/// 1 = off, 2 = after, 3 = before
+#[inline]
+fn guard_mode() -> u8 {
+    let m = GUARD_MODE.load(std::sync::atomic::Ordering::Relaxed);
+    if m != 0 {
+        return m;
+    }
+    let v = unsafe { libc::getenv(c"VERIF_GUARD".as_ptr()) };
+    let m = if v.is_null() {
+        1
+    } else {
+        match unsafe { *v } as u8 {
+            b'a' => 2,
+            b'b' => 3,
+            _ => 1,
+        }
+    };
+    GUARD_MODE.store(m, std::sync::atomic::Ordering::Relaxed);
+    m
+}
+
+/// "off" | "after" | "before"
+pub fn guard_mode_name() -> &'static str {
+    match guard_mode() {
+        2 => "after",
+        3 => "before",
+        _ => "off",
+    }
+}
+
+pub fn guarded_allocations() -> u64 {
+    GUARDED_ALLOCS.load(std::sync::atomic::Ordering::Relaxed)
+}
+
+#[inline]
+fn guarded(size: usize) -> bool {
+    (GUARD_MIN..=GUARD_MAX).contains(&size) && guard_mode() >= 2
+}
+
+/// (offset of the block inside the mapping, length of the mapping)
+#[inline]
+fn guard_geometry(layout: Layout, mode: u8) -> (usize, usize) {
+    let data = layout.size().div_ceil(PAGE) * PAGE;
+    // over-aligned blocks (> one page) are not produced by the code under test
+    let total = data + 2 * PAGE;
+    if mode == 2 {
+        let slack = (data - layout.size()) & !(layout.align().min(PAGE) - 1);
+        (PAGE + slack, total)
+    } else {
+        (PAGE, total)
+    }
+}
+
+// Mappings are recycled through a small cache keyed by their length: creating and destroying a
+// mapping per allocation is very expensive in this sandbox (every fresh page faults in the
+// hypervisor), and the same few sizes recur in every case.
+const CACHE_SLOTS: usize = 256;
+const CACHE_MAX_LEN: usize = 64 << 20;
+static CACHE_LOCK: std::sync::atomic::AtomicBool = std::sync::atomic::AtomicBool::new(false);
+static mut CACHE: [(usize, usize); CACHE_SLOTS] = [(0, 0); CACHE_SLOTS];
+static mut CACHE_EVICT: usize = 0;
+
+#[inline]
+fn cache_lock() {
+    while CACHE_LOCK.compare_exchange_weak(false, true, std::sync::atomic::Ordering::Acquire, std::sync::atomic::Ordering::Relaxed).is_err() {
+        std::hint::spin_loop();
+    }
+}
+
+#[inline]
+fn cache_unlock() {
+    CACHE_LOCK.store(false, std::sync::atomic::Ordering::Release);
+}
+
+/// returns (block, came from the cache: contents are stale, not zero)
+unsafe fn guard_alloc(layout: Layout) -> (*mut u8, bool) {
+    let mode = guard_mode();
+    let (off, total) = guard_geometry(layout, mode);
+    GUARDED_ALLOCS.fetch_add(1, std::sync::atomic::Ordering::Relaxed);
+    if total <= CACHE_MAX_LEN {
+        cache_lock();
+        let cache = &mut *std::ptr::addr_of_mut!(CACHE);
+        let mut found = 0usize;
+        for e in cache.iter_mut() {
+            if e.1 == total {
+                found = e.0;
+                *e = (0, 0);
+                break;
+            }
+        }
+        cache_unlock();
+        if found != 0 {
+            return ((found as *mut u8).add(off), true);
+        }
+    }
+    let base = libc::mmap(std::ptr::null_mut(), total, libc::PROT_READ | libc::PROT_WRITE, libc::MAP_PRIVATE | libc::MAP_ANONYMOUS, -1, 0);
+    if base == libc::MAP_FAILED {
+        return (std::ptr::null_mut(), false);
+    }
+    let base = base as *mut u8;
+    libc::mprotect(base as *mut libc::c_void, PAGE, libc::PROT_NONE);
+    libc::mprotect(base.add(total - PAGE) as *mut libc::c_void, PAGE, libc::PROT_NONE);
+    (base.add(off), false)
+}
+
+unsafe fn guard_dealloc(ptr: *mut u8, layout: Layout) {
+    let (off, total) = guard_geometry(layout, guard_mode());
+    let base = ptr.sub(off);
+    let mut evicted = (0usize, 0usize);
+    if total <= CACHE_MAX_LEN {
+        cache_lock();
+        let cache = &mut *std::ptr::addr_of_mut!(CACHE);
+        let mut stored = false;
+        for e in cache.iter_mut() {
+            if e.1 == 0 {
+                *e = (base as usize, total);
+                stored = true;
+                break;
+            }
+        }
+        if !stored {
+            let k = &mut *std::ptr::addr_of_mut!(CACHE_EVICT);
+            *k = (*k + 1) % CACHE_SLOTS;
+            evicted = cache[*k];
+            cache[*k] = (base as usize, total);
+        }
+        cache_unlock();
+    } else {
+        evicted = (base as usize, total);
+    }
+    if evicted.1 != 0 {
+        libc::munmap(evicted.0 as *mut libc::c_void, evicted.1);
+    }
+}
+
 unsafe impl GlobalAlloc for VerifAlloc {
     unsafe fn alloc(&self, layout: Layout) -> *mut u8 {
+        on_layout(layout);
         let cap = REQ_CAP.try_with(|c| c.get()).unwrap_or(usize::MAX);
         if layout.size() > cap {
             cap_exceeded(layout.size());
             return std::ptr::null_mut();
+        }
+        if guarded(layout.size()) {
+            let (p, _) = guard_alloc(layout);
+            if !p.is_null() {
+                on_alloc(layout.size());
+                let poison = POISON.try_with(|c| c.get()).unwrap_or(0);
+                if poison != 0 {
+                    std::ptr::write_bytes(p, poison, layout.size());
+                }
+            }
+            return p;
         }
         let p = System.alloc(layout);
         if !p.is_null() {
@@ -79,10 +253,21 @@ unsafe impl GlobalAlloc for VerifAlloc {
     }
 
     unsafe fn alloc_zeroed(&self, layout: Layout) -> *mut u8 {
+        on_layout(layout);
         let cap = REQ_CAP.try_with(|c| c.get()).unwrap_or(usize::MAX);
         if layout.size() > cap {
             cap_exceeded(layout.size());
             return std::ptr::null_mut();
+        }
+        if guarded(layout.size()) {
+            let (p, stale) = guard_alloc(layout);
+            if !p.is_null() {
+                on_alloc(layout.size());
+                if stale {
+                    std::ptr::write_bytes(p, 0, layout.size());
+                }
+            }
+            return p;
         }
         let p = System.alloc_zeroed(layout);
         if !p.is_null() {
@@ -93,6 +278,9 @@ unsafe impl GlobalAlloc for VerifAlloc {
 
     unsafe fn dealloc(&self, ptr: *mut u8, layout: Layout) {
         on_free(layout.size());
+        if guarded(layout.size()) {
+            return guard_dealloc(ptr, layout);
+        }
         System.dealloc(ptr, layout)
     }
 
@@ -101,6 +289,15 @@ unsafe impl GlobalAlloc for VerifAlloc {
         if new_size > cap {
             cap_exceeded(new_size);
             return std::ptr::null_mut();
+        }
+        if guard_mode() >= 2 && (guarded(layout.size()) || guarded(new_size)) {
+            let new_layout = Layout::from_size_align_unchecked(new_size, layout.align());
+            let p = self.alloc(new_layout);
+            if !p.is_null() {
+                std::ptr::copy_nonoverlapping(ptr, p, layout.size().min(new_size));
+                self.dealloc(ptr, layout);
+            }
+            return p;
         }
         let p = System.realloc(ptr, layout, new_size);
         if !p.is_null() {
@@ -122,7 +319,13 @@ pub fn begin() -> usize {
     CUR.with(|c| c.set(0));
     PEAK.with(|p| p.set(0));
     BIGGEST.with(|b| b.set(0));
+    BIGGEST_BYTES.with(|b| b.set(0));
     0
+}
+
+/// Biggest single request with alignment 1 (a byte buffer) since `begin()` on this thread.
+pub fn biggest_bytes_request() -> usize {
+    BIGGEST_BYTES.with(|b| b.get())
 }
 
 /// Peak bytes above `base` since `begin()`.
